@@ -13,7 +13,7 @@ pub fn def() -> PropDef {
         job_level,
         run_job,
         replay,
-        rule: "configs: action lists (x), (x y), (x y z), (x y z w) x {tap-dance, tap-dance-eager} x timeout T in {3,6} x rapid-event-delay {0,5}; a = the dance key, b = plain key. Histories: EVERY physically consistent schedule of N events over press/release of a and b, each preceded by a gap from {0,1,T-1,T,T+1} (quick N=5, thorough N=6/7), then released and settled. Tap-hold member family: (tap-dance T ((tap-hold 0 H x y) z)) held for EVERY length 1..T+H+8, alone and with another key pressed at every offset before the dance timeout: the inner tap-hold's decision runs from the end of the dance (x if released within H of it, y if held past it, +-2 either). Taps family: EVERY sequence of U complete taps (press, 1 tick, release) of a / b with the gap before each tap from {1, T-1, T+1} (quick U=6, thorough U=7): reaches list exhaustion and restart (len+2 taps in a row). Oracle TapDanceSpec: taps are counted while each press of the dance key follows the previous press by less than T (gap == T: either reading accepted, but the press must be accounted for); the dance ends on timeout / press of another key / list exhausted; lazy: the sequence of press outputs equals [N-th action of each dance, interrupting keys after the chosen action], each chosen action pressed once and released not before the final release of the dance key; eager: the i-th tap of a dance presses the i-th action. Accounting invariant: the tap counts implied by the outputs sum to the number of physical presses of the dance key (no press swallowed, none doubled). After settle nothing is held.",
+        rule: "configs: action lists (x), (x y), (x y z), (x y z w) x {tap-dance, tap-dance-eager} x timeout T in {3,6} x rapid-event-delay {0,5}; a = the dance key, b = plain key. Histories: EVERY physically consistent schedule of N events over press/release of a and b, each preceded by a gap from {0,1,T-1,T,T+1} (quick N=5, thorough N=6/7), then released and settled. Tap-hold member family: (tap-dance T ((tap-hold 0 H x y) z)) held for EVERY length 1..T+H+8, alone, with another key pressed at every offset before the dance timeout, and with the dance key's press queued behind 2 or 4 events of another key that arrived in the same millisecond: the inner tap-hold's decision runs from the end of the dance (x if released within H of it, y if held past it, +-2 either). Taps family: EVERY sequence of U complete taps (press, 1 tick, release) of a / b with the gap before each tap from {1, T-1, T+1} (quick U=6, thorough U=7): reaches list exhaustion and restart (len+2 taps in a row). Oracle TapDanceSpec: taps are counted while each press of the dance key follows the previous press by less than T (gap == T: either reading accepted, but the press must be accounted for); the dance ends on timeout / press of another key / list exhausted; lazy: the sequence of press outputs equals [N-th action of each dance, interrupting keys after the chosen action], each chosen action pressed once and released not before the final release of the dance key; eager: the i-th tap of a dance presses the i-th action. Accounting invariant: the tap counts implied by the outputs sum to the number of physical presses of the dance key (no press swallowed, none doubled). After settle nothing is held.",
         assumptions: &["key actions in the lists, plus one family with a tap-hold member (layer members are covered by C01/C02 for crash and stuck-output, not for count)", "boundary gap == T is a don't-care between 'same dance' and 'new dance'"],
         required_level,
         min_outcomes: 3,
@@ -366,19 +366,25 @@ fn run_th_member(st: &mut Stats, found: &mut Vec<Violation>) {
             return;
         }
         let (a, b) = (kc("a"), kc("b"));
-        // interrupt offset 0 = no interrupting key
-        for intr in 0..T {
+        // interrupt offset 0 = no interrupting key; burst = events of the other key arriving in the same
+        // millisecond BEFORE the dance key (its press then waits `burst` ticks in the queue: the dance,
+        // and later the inner tap-hold, start that much later)
+        for (intr, burst) in (0..T).map(|i| (i, 0u32)).chain([(0u32, 2u32), (0, 4)]) {
             for g in 1..=(T + H + 8) {
                 if intr != 0 && intr >= g {
                     // the other key is pressed while a is still held
                     continue;
                 }
-                let mut h = vec![Ev::T(2), Ev::P(a)];
+                let mut h = vec![Ev::T(2)];
+                for i in 0..burst {
+                    h.push(if i % 2 == 0 { Ev::P(b) } else { Ev::R(b) });
+                }
+                h.push(Ev::P(a));
                 let dance_end;
                 if intr == 0 {
                     h.push(Ev::T(g));
                     h.push(Ev::R(a));
-                    dance_end = T; // timeout (the list has a second item, one tap does not exhaust it)
+                    dance_end = T + burst; // timeout (the list has a second item, one tap does not exhaust it)
                 } else {
                     h.push(Ev::T(intr));
                     h.push(Ev::P(b));
@@ -412,6 +418,8 @@ fn run_th_member(st: &mut Stats, found: &mut Vec<Violation>) {
                             ok_first.push("X");
                             ok_first.push("Y");
                         }
+                        // the burst's own taps of b come out first
+                        let downs: Vec<String> = downs.into_iter().skip((burst / 2) as usize).collect();
                         let want_len = if intr == 0 { 1 } else { 2 };
                         let good = downs.len() == want_len && ok_first.contains(&downs[0].as_str()) && (intr == 0 || downs[1] == "B") && crate::sim::os_down_set(&tr).is_empty();
                         st.outcome(if downs.first().map(|d| d == "Y").unwrap_or(false) { "th-member-hold" } else { "th-member-tap" });
